@@ -102,6 +102,11 @@ def advDeal (n claim sealer rcpt : Nat) (variant : String) : DkgDeal S P :=
   else if variant.startsWith "nilshare" then sealed { plain (pnum (after "nilshare")) with share := none }
   else if variant.startsWith "nilv" then sealed { plain (pnum (after "nilv")) with share := some ⟨(rcpt : Int), none⟩ }
   else if variant.startsWith "sidraw" then sealed { plain (pnum (after "sidraw")) with sid := .raw 9 }
+  else if variant.startsWith "Tc" then
+    let parts := (after "Tc").splitOn "p"
+    let tv := parseNat (parts.getD 0 "")
+    let (c, C) := mk (parseNat (parts.getD 1 "")) tv
+    sealed { sid := sidOf C tv, share := some ⟨(rcpt : Int), some (priEval c (rcpt : Int))⟩, t := tv, commits := C }
   else if variant.startsWith "Tx" then
     let parts := (after "Tx").splitOn "p"
     sealed { plain (parseNat (parts.getD 1 "")) with t := parseNat (parts.getD 0 "") % 4294967296 }
